@@ -380,7 +380,7 @@ def run(ctx):
     projects.extend(corpus)
     for i in range(n):
         projects.append(gen_project(rng, conflict=rng.random() < 0.3))
-    root = os.path.join(ctx.work, "proj")
+    root = os.path.join(ctx.work, "proj_%d" % os.getpid())
     shutil.rmtree(root, ignore_errors=True)
     dirs = []
     for i, (locales, keys) in enumerate(projects):
@@ -437,7 +437,7 @@ def run(ctx):
             items.append("(mk_case %s %s %s)" % (pvs[0], core.coq_list(pvs[1:]), impl))
             meta.append({"project": pi, "key": name, "locales": locales, "values": {l: vals[l] for l in locales},
                          "impl": impl_by_key.get(name) if "ok" in pipe else (pipe["err"] if name == err_key else None)})
-    codes = core.coq_eval(ctx, "c08", PRE, items, "check")
+    codes = core.coq_eval(ctx, "c08_%d" % os.getpid(), PRE, items, "check")
     bad_spec = [m for m, c in zip(meta, codes) if c == 3]
     disagree = [m for m, c in zip(meta, codes) if c == 2]
     skipped = sum(1 for c in codes if c == 1)
@@ -493,6 +493,7 @@ def run(ctx):
         "the rejection of calls with missing/unknown arguments is rustc + typed-builder behaviour: observed by cargo check on "
         "generated probe crates (thorough tier), not proved",
         "key names and formatters are interned; formatter identity beyond None/Number is not exercised"])
+    shutil.rmtree(root, ignore_errors=True)
 
 
 def _retuple(v):
@@ -527,7 +528,7 @@ def replay(ctx, path):
     if "keys" in fi and "locales" in fi:                      # a whole project (pipeline panic)
         exe = os.path.join(core.cargo_build("h_plurals"), "h_plurals")
         keys = {k: {l: _value(v) for l, v in vals.items()} for k, vals in fi["keys"].items()}
-        d = os.path.join(ctx.work, "replay")
+        d = os.path.join(ctx.work, "replay_%d" % os.getpid())
         write_project(d, fi["locales"], keys)
         rc, out, err = core.sh([exe, "parse"], input=d + "\n", timeout=120)
         pipe = json.loads(out.splitlines()[0])["pipeline"]
@@ -543,7 +544,7 @@ def replay(ctx, path):
         print("the stored value refers to other keys of its project (foreign key); re-run ./check C08 --seed %d instead" % ctx.seed)
         return 0
     keys = {"k0": vals}
-    d = os.path.join(ctx.work, "replay")
+    d = os.path.join(ctx.work, "replay_%d" % os.getpid())
     write_project(d, locales, keys)
     rc, out, err = core.sh([exe, "parse"], input=d + "\n", timeout=120)
     o = json.loads(out.splitlines()[0])
@@ -560,6 +561,6 @@ def replay(ctx, path):
         impl = "None"
     print("interned names:", intern.t)
     print("MODEL key_signature:", core.coq_show(ctx, PRE, "key_signature %s %s" % (pvs[0], core.coq_list(pvs[1:]))))
-    code = core.coq_eval(ctx, "replay", PRE, ["(mk_case %s %s %s)" % (pvs[0], core.coq_list(pvs[1:]), impl)], "check", min_per_shard=1)[0]
+    code = core.coq_eval(ctx, "replay_%d" % os.getpid(), PRE, ["(mk_case %s %s %s)" % (pvs[0], core.coq_list(pvs[1:]), impl)], "check", min_per_shard=1)[0]
     print("VERDICT code %d (0 agree+spec, 1 outside domain, 2 differs from model, 3 spec_C08 false on the implementation's output)" % code)
     return 1 if code in (2, 3) else 0
